@@ -11,6 +11,7 @@ package h2relay
 //	wu e sid inc
 //	raw e type flags sid payload     malformed stream (oracle-only: no panic, no hang)
 //	mode real                        the case uses a real hpack.Encoder at the endpoints (oracle-only)
+//	e2e-preface n1,n2,...            oracle-only (C08): preface dribbled through Config.Proxy in pieces
 //	drained                          oracle-only: every window is open, everything must have arrived
 //
 // The line sent to the model carries, in addition, the two choices the implementation makes that
@@ -442,8 +443,9 @@ func malformedCase(r *core.Rand) []string {
 func Gen(profile string, r *core.Rand, tier string, emit func([]string)) {
 	n := 260
 	if tier == "thorough" {
-		n = 6000
+		n = 2500
 		if profile == "C08" {
+			n = 4000
 			cutCases(emit)
 		}
 	}
@@ -453,5 +455,15 @@ func Gen(profile string, r *core.Rand, tier string, emit func([]string)) {
 	}
 	for i := 0; i < n/20; i++ {
 		emit(malformedCase(r.Fork()))
+	}
+	if profile == "C08" { // end-to-end tier: the preface in small pieces through Config.Proxy
+		pieces := []string{"24", "1,23", "3,21", "23,1", "1,1,1,1,1,1,1,1,1,1,1,1,1,1,1,1,1,1,1,1,1,1,1,1", "7,7,7,3", "12,12"}
+		k := 3
+		if tier == "thorough" {
+			k = len(pieces)
+		}
+		for i := 0; i < k; i++ {
+			emit([]string{"e2e-preface " + pieces[(i+r.Intn(len(pieces)))%len(pieces)]})
+		}
 	}
 }
